@@ -50,6 +50,19 @@ Record defn := mkDef {
 
 Definition d_refs (d : defn) : list N := d_main d ++ d_subt d.
 
+Fixpoint listN_eqb (a b : list N) : bool :=
+  match a, b with
+  | [], [] => true
+  | x :: a', y :: b' => (x =? y) && listN_eqb a' b'
+  | _, _ => false
+  end.
+
+(* `ot.definition == t.definition`: the features are a function of the definition text *)
+Definition defn_eqb (a b : defn) : bool :=
+  (d_id a =? d_id b) && Bool.eqb (d_idonly a) (d_idonly b) && Bool.eqb (d_sub a) (d_sub b) &&
+  Bool.eqb (d_datatime a) (d_datatime b) && Bool.eqb (d_data a) (d_data b) &&
+  listN_eqb (d_main a) (d_main b) && listN_eqb (d_subt a) (d_subt b) && Bool.eqb (d_mark a) (d_mark b).
+
 Record tag := mkTag { t_def : defn; t_m : N; t_u : N; t_conv : list N }.
 
 Definition tags_t := list (N * tag).
@@ -60,11 +73,11 @@ Fixpoint tget (n : N) (ts : tags_t) : option tag :=
   | (k, t) :: r => if k =? n then Some t else tget n r
   end.
 
-(* insert keeping the list sorted by name; replaces an existing entry *)
+(* insert keeping the list sorted by DESCENDING name (head = highest rank); replaces an existing entry *)
 Fixpoint tset (n : N) (t : tag) (ts : tags_t) : tags_t :=
   match ts with
   | [] => [(n, t)]
-  | (k, x) :: r => if n <? k then (n, t) :: (k, x) :: r
+  | (k, x) :: r => if k <? n then (n, t) :: (k, x) :: r
                    else if k =? n then (n, t) :: r
                    else (k, x) :: tset n t r
   end.
@@ -179,26 +192,25 @@ Definition all (st : state) : N := ones (next st).
 Definition fupd (f : N -> N) (k v : N) : N -> N := fun x => if x =? k then v else f x.
 
 (* ---------------------------------------------------------------- inheritTagUncertainty
-   Tags are kept sorted by name and a definition references smaller names only (the
-   scenario family respects a fixed ranking; in the Go code the order is the dependency
-   order computed by the `resolvedTags` loop), so one pass in list order visits every tag
-   after the tags it references. *)
-Definition inherit_one (allS : N) (done : tags_t) (t : tag) : tag :=
+   Tags are kept sorted by descending name and a definition references smaller names only (the
+   scenario family respects a fixed ranking; in the Go code the order is the dependency order
+   computed by the `resolvedTags` loop), so the tail of the list holds every tag a tag references
+   and is processed first. *)
+Definition inherit_one (allS : N) (lower : tags_t) (t : tag) : tag :=
   let d := t_def t in
   match d_main d, d_subt d with
   | [], [] => t
   | _, _ =>
-    if existsb (fun r => negb (is0 (tu r done))) (d_subt d)
+    if existsb (fun r => negb (is0 (tu r lower))) (d_subt d)
     then mkTag d (t_m t) allS (t_conv t)
-    else mkTag d (t_m t) (fold_left (fun u r => union u (tu r done)) (d_main d) (t_u t)) (t_conv t)
+    else mkTag d (t_m t) (fold_left (fun u r => union u (tu r lower)) (d_main d) (t_u t)) (t_conv t)
   end.
 
-Fixpoint inherit_aux (allS : N) (done : tags_t) (todo : tags_t) : tags_t :=
-  match todo with
-  | [] => done
-  | (n, t) :: r => inherit_aux allS (done ++ [(n, inherit_one allS done t)]) r
+Fixpoint inherit (allS : N) (ts : tags_t) : tags_t :=
+  match ts with
+  | [] => []
+  | (n, t) :: r => let r' := inherit allS r in (n, inherit_one allS r' t) :: r'
   end.
-Definition inherit (allS : N) (ts : tags_t) : tags_t := inherit_aux allS [] ts.
 
 (* ---------------------------------------------------------------- invalidateTags *)
 Definition invalidate_one (k : kf) (allS upd rst add : N) (t : tag) : tag :=
@@ -378,6 +390,10 @@ Definition data_tags_uncertain (s : N) (ts : tags_t) : tags_t :=
 Definition queue_matches (st : state) (cs : list N) (m : N) : state :=
   set_toconv st (fun c => if memN c cs then union (toconv st c) m else toconv st c).
 
+(* referenced tags exist and have a smaller name (Go: exist, no self reference, no cycle) *)
+Definition refs_ok (n : N) (d : defn) (ts : tags_t) : bool :=
+  forallb (fun r => (r <? n) && match tget r ts with Some _ => true | None => false end) (d_refs d).
+
 Definition step (k : kf) (pick : N) (a : action) (st : state) : state :=
   match a with
   | AImport files =>
@@ -392,7 +408,7 @@ Definition step (k : kf) (pick : N) (a : action) (st : state) : state :=
     match tget n (tags st) with
     | Some _ => st
     | None =>
-      if forallb (fun r => match tget r (tags st) with Some _ => true | None => false end) (d_refs d) then
+      if refs_ok n d (tags st) then
         if d_mark d then set_tags st (tset n (mkTag d ids 0 []) (tags st))
         else start_tagging pick (set_tags st (tset n (mkTag d 0 (all st) []) (tags st)))
       else st
@@ -410,8 +426,10 @@ Definition step (k : kf) (pick : N) (a : action) (st : state) : state :=
     match tget n (tags st) with
     | None => st
     | Some t =>
-      let st1 := set_tags st (inherit (all st) (tset n (mkTag d 0 (all st) (t_conv t)) (tags st))) in
-      start_converter (start_tagging pick st1)
+      if refs_ok n d (tags st) then
+        let st1 := set_tags st (inherit (all st) (tset n (mkTag d 0 (all st) (t_conv t)) (tags st))) in
+        start_converter (start_tagging pick st1)
+      else st
     end
   | AMarkAdd n ids did =>
     match tget n (tags st), ids with
@@ -529,7 +547,7 @@ Definition step (k : kf) (pick : N) (a : action) (st : state) : state :=
       let st1 :=
         match tget n (tags st0) with
         | Some ot =>
-          if d_id (t_def ot) =? d_id d then
+          if defn_eqb (t_def ot) d then
             let stq := queue_matches st0 (t_conv ot) res in
             (* repaired: streams on which a referenced tag changed since the snapshot stay uncertain *)
             let u1 := if kf_inherit k then 0 else
@@ -573,6 +591,7 @@ Definition step (k : kf) (pick : N) (a : action) (st : state) : state :=
       match cache st c i with
       | Some _ => st
       | None =>
+        if negb (i <? next st) then st else
         if kf_viewstore k || (sv i =? ver st i)
         then set_cache st (fun c' i' => if (c' =? c) && (i' =? i) then Some (sv i) else cache st c' i')
         else (* repaired: output of an old version is dropped again by the posted closure and the stream is queued *)
